@@ -11,16 +11,16 @@ open Pred Bound
 def BoundSet.render (s : BoundSet) : Option (List Char) :=
   match s.lower, s.upper with
   | lo unb, up unb => some ['*']
-  | lo unb, up (inc v) => some ("<=".toList ++ v.render)
+  | lo unb, up (inc v) => some ('<' :: '=' :: v.render)
   | lo unb, up (exc v) => some ('<' :: v.render)
-  | lo (inc v), up unb => some (">=".toList ++ v.render)
+  | lo (inc v), up unb => some ('>' :: '=' :: v.render)
   | lo (exc v), up unb => some ('>' :: v.render)
   | lo (inc v), up (inc v2) =>
     if v.beq v2 then some v.render
-    else some (">=".toList ++ v.render ++ " <=".toList ++ v2.render)
-  | lo (inc v), up (exc v2) => some (">=".toList ++ v.render ++ " <".toList ++ v2.render)
-  | lo (exc v), up (inc v2) => some ('>' :: v.render ++ " <=".toList ++ v2.render)
-  | lo (exc v), up (exc v2) => some ('>' :: v.render ++ " <".toList ++ v2.render)
+    else some ('>' :: '=' :: (v.render ++ ' ' :: '<' :: '=' :: v2.render))
+  | lo (inc v), up (exc v2) => some ('>' :: '=' :: (v.render ++ ' ' :: '<' :: v2.render))
+  | lo (exc v), up (inc v2) => some ('>' :: (v.render ++ ' ' :: '<' :: '=' :: v2.render))
+  | lo (exc v), up (exc v2) => some ('>' :: (v.render ++ ' ' :: '<' :: v2.render))
   | _, _ => none
 
 def Range.render : Range → Option (List Char)
@@ -28,7 +28,7 @@ def Range.render : Range → Option (List Char)
   | [s] => s.render
   | s :: t :: rest =>
     match s.render, Range.render (t :: rest) with
-    | some a, some b => some (a ++ "||".toList ++ b)
+    | some a, some b => some (a ++ '|' :: '|' :: b)
     | _, _ => none
 
 end Semver
